@@ -8,6 +8,7 @@ the repository is not modified.
 from __future__ import annotations
 
 import functools
+import inspect
 import weakref
 
 from .. import repo
@@ -280,6 +281,14 @@ def install():
                     if st is not None and st.adhoc_claims:
                         st.pre_claim = self.claims[0].pattern if self.claims else None
                 result = orig(self, *args, **kwargs)
+                if kwargs:
+                    # the monitor reads its operands by position: bind keyword arguments the way the real method does
+                    try:
+                        ba = inspect.signature(orig).bind(self, *args, **kwargs)
+                        ba.apply_defaults()
+                        args = tuple(ba.args[1:])
+                    except TypeError:
+                        pass
                 try:
                     _after(name, self, args, result)
                 except rm.Reject:
